@@ -624,11 +624,11 @@ func buildExtras(c *core.Ctx) {
 			if subj, neq, isNil := nilTest(cond); isNil && subj == recv && !neq {
 				kind = "nil"
 			}
-			if bo, isB := cond.(*ssa.BinOp); isB && bo.Op == token.EQL {
-				if k, isK := bo.Y.(*ssa.Const); isK && k.Value != nil && k.Value.Kind() == constant.String && constant.StringVal(k.Value) == "" && isRecvFieldLoad(bo.X, recv, "content") {
+			if bo, isB := cond.(*ssa.BinOp); isB {
+				if k, isK := bo.Y.(*ssa.Const); isK && bo.Op == token.EQL && k.Value != nil && k.Value.Kind() == constant.String && constant.StringVal(k.Value) == "" && isRecvFieldLoad(bo.X, recv, "content") {
 					kind = "content"
 				}
-				if k, isK := constInt(bo.Y); isK && k == 0 {
+				if k, isK := constInt(bo.Y); isK && ((bo.Op == token.EQL && k == 0) || (bo.Op == token.LSS && k == 1) || (bo.Op == token.LEQ && k == 0)) {
 					if call, isC := bo.X.(*ssa.Call); isC {
 						if bi, isBi := call.Call.Value.(*ssa.Builtin); isBi && bi.Name() == "len" && isRecvFieldLoad(call.Call.Args[0], recv, "dataCodings") {
 							kind = "codings"
@@ -640,10 +640,13 @@ func buildExtras(c *core.Ctx) {
 				break
 			}
 			seen++
+			// the refusal: one shared block (a || chain) or one block per guard clause - each must return an error
+			refusal := b.Succs[0]
+			if ret, ok := refusal.Instrs[len(refusal.Instrs)-1].(*ssa.Return); !ok || len(ret.Results) != 3 || paths.IsNilConst(ret.Results[2]) {
+				problems = append(problems, "an emptiness test does not lead to a refusal with an error")
+			}
 			if errBlock == nil {
-				errBlock = b.Succs[0]
-			} else if b.Succs[0] != errBlock {
-				problems = append(problems, "the emptiness tests do not lead to one refusal")
+				errBlock = refusal
 			}
 			b = b.Succs[1]
 		}
@@ -777,23 +780,29 @@ func buildExtras(c *core.Ctx) {
 				if !ok || call.Call.StaticCallee() == nil || call.Call.StaticCallee().Name() != "Result" || len(call.Call.Args) != 1 {
 					continue
 				}
-				ph, ok := call.Call.Args[0].(*ssa.Phi)
-				if !ok {
-					continue // the winner's Result (element 0 of the sorted slice) is C09-FLOW's
-				}
-				fb := false
-				for _, e := range ph.Edges {
-					if ec, isC := e.(*ssa.Call); isC && newEnc != nil && ec.Call.StaticCallee() == newEnc {
-						fb = true
+				var ph ssa.Value
+				fb, alwaysNonNil := false, false
+				switch x := call.Call.Args[0].(type) {
+				case *ssa.Phi:
+					ph = x
+					for _, e := range x.Edges {
+						if ec, isC := e.(*ssa.Call); isC && newEnc != nil && ec.Call.StaticCallee() == newEnc {
+							fb = true
+						}
+					}
+				case *ssa.Call:
+					// built right there: never nil
+					if newEnc != nil && x.Call.StaticCallee() == newEnc {
+						ph, fb, alwaysNonNil = x, true, true
 					}
 				}
 				if !fb {
-					continue
+					continue // the winner's Result (element 0 of the sorted slice) is C09-FLOW's
 				}
 				nRes++
 				ran := false
 				for _, prev := range b.Instrs[:k] {
-					if pc, ok := prev.(*ssa.Call); ok && pc.Call.StaticCallee() != nil && pc.Call.StaticCallee().Name() == "Run" && len(pc.Call.Args) >= 1 && pc.Call.Args[0] == ssa.Value(ph) {
+					if pc, ok := prev.(*ssa.Call); ok && pc.Call.StaticCallee() != nil && pc.Call.StaticCallee().Name() == "Run" && len(pc.Call.Args) >= 1 && pc.Call.Args[0] == ph {
 						ran = true
 					}
 				}
@@ -801,14 +810,14 @@ func buildExtras(c *core.Ctx) {
 					problems = append(problems, "the fallback encoder's Result is taken without Run having been called on it just before: the fallback always reports 'encode failed'")
 				}
 				// reached only where the fallback encoder is non-nil
-				nonNil := false
+				nonNil := alwaysNonNil
 				for x := b; x != nil && x.Idom() != nil; x = x.Idom() {
 					d := x.Idom()
 					ifi, isIf := d.Instrs[len(d.Instrs)-1].(*ssa.If)
 					if !isIf || d.Succs[0] == d.Succs[1] {
 						continue
 					}
-					if subj, neq, isNil := nilTest(ifi.Cond); isNil && subj == ssa.Value(ph) {
+					if subj, neq, isNil := nilTest(ifi.Cond); isNil && subj == ph {
 						vt, vf := viaEdge(d, x)
 						if (neq && vt) || (!neq && vf) {
 							nonNil = true
